@@ -1516,8 +1516,12 @@ func c05GenProject(rng *rand.Rand, setRule, setAP bool) *gen.Project {
 	g := &c05Gen{rng: rng, enum: rng.IntN(3) == 0, setRule: setRule, setAP: setAP}
 	p := &gen.Project{}
 	k := []int{1, 2, 2, 3, 3, 3, 4, 4, 4, 5, 5, 6, 6}[rng.IntN(13)]
+	style := 0
+	if rng.IntN(3) == 0 {
+		style = 1 + rng.IntN(gen.NameStyles-1)
+	}
 	for i := 0; i < k; i++ {
-		name := fmt.Sprintf("@t%d", i)
+		name := gen.StyledName(style, "t", i)
 		if rng.IntN(9) == 0 {
 			p.Regexes = append(p.Regexes, gen.NamedText{Name: name, Text: `/^[a-z]+$/`})
 			g.types = append(g.types, c05Type{name: name, kinds: c05KStr, exLit: `"abc"`})
